@@ -112,6 +112,14 @@ def main():
             if [r for r in recs if r["scenario"] == rp["persist_scenario"] and not r["ok"]]:
                 violation(ctx, rp)
             finish(ctx)
+        if "shutdown_round" in rp:
+            rb = build_harness(ctx, ["realrun"])
+            outp = os.path.join(ctx.run, "shutdown.jsonl")
+            rc, o = sh([rb["realrun"], "-mode", "shutdown", "-seed", str(rp.get("seed", 1)), "-out", outp], cwd=ctx.run, timeout=300)
+            recs = [json.loads(l) for l in open(outp)] if rc == 0 else []
+            if [r for r in recs if not r.get("ok", True)]:
+                violation(ctx, rp)
+            finish(ctx)
         if "fail_case" in rp:
             rb = build_harness(ctx, ["realrun"])
             outp = os.path.join(ctx.run, "fail.jsonl")
@@ -246,6 +254,22 @@ def main():
         if tbad and not wrong:
             violation(ctx, {"what": "checkStatus differs from System.check_status", "broken": "correspondence schedtab vs coq/System.v check_status",
                             "rows": [rows[i] for i in tbad[:3]]}, found_input=False)
+    if prop == "C01":
+        # "a changed limit governs the jobs started after the change", through the reload path of the real application: the
+        # definition file walks over versions with different concurrency; after each change three requests at once
+        rb = build_harness(ctx, ["realrun"])
+        outp = os.path.join(ctx.run, "reload.jsonl")
+        recs = []
+        if rb:
+            rc, o = sh([rb["realrun"], "-mode", "reload", "-seed", str(ctx.seed), "-n", "2" if ctx.tier == "quick" else "10", "-out", outp], cwd=ctx.run, timeout=900)
+            if rc == 0:
+                recs = [json.loads(l) for l in open(outp)]
+        steps = [r for r in recs if r.get("kind") == "reload_step"]
+        if not steps:
+            violation(ctx, {"what": "realrun -mode reload did not complete", "broken": "the reload walk over the real application (C01: changed limit) cannot run"}, found_input=False)
+        ctx.coverage["reload_walk_limit_probes"] = [[r["limit"], r["max_executing"]] for r in steps]
+        for r in [r for r in steps if r.get("limit_what")][:2]:
+            violation(ctx, {"what": "real application, definitions file rewritten (watch mode): " + r["limit_what"], "reload_walk": r["walk"][:r["step"] + 2], "step": r})
     if prop == "C08":
         # the real task runner (real processes) on generated graphs with tasks that succeed, exit non-zero, are killed by a signal or
         # cannot be parsed, allow_failure and both fail-fast settings; marker files say what actually ran
@@ -302,6 +326,20 @@ def main():
                 recs = [json.loads(l) for l in open(outp)]
         if not recs:
             violation(ctx, {"what": "persistrun did not complete", "broken": "correspondence persistrun vs coq/PersistLoop.v"}, found_input=False)
+        # the real application: SIGINT (graceful) with a running and a waiting job, then a forced shutdown with a running job whose
+        # tree holds an interrupt-ignoring child; the store file is read after the application has returned
+        rb = build_harness(ctx, ["realrun"])
+        souts = []
+        if rb:
+            outp2 = os.path.join(ctx.run, "shutdown.jsonl")
+            rc, o = sh([rb["realrun"], "-mode", "shutdown", "-seed", str(ctx.seed), "-out", outp2], cwd=ctx.run, timeout=300)
+            if rc == 0:
+                souts = [json.loads(l) for l in open(outp2)]
+        if len(souts) < 2 or [r for r in souts if r.get("kind") == "error"]:
+            violation(ctx, {"what": "realrun -mode shutdown did not complete", "broken": "the shutdown rounds on the real application (C11) cannot run"}, found_input=False)
+        ctx.coverage["application_shutdown_rounds"] = [{k: r.get(k) for k in ("round", "pipeline", "ok", "return_ms", "report_ms", "schedule_during_shutdown_status", "what")} for r in souts]
+        for r in [r for r in souts if not r.get("ok", True)]:
+            violation(ctx, {"what": "real application: " + str(r.get("what")), "shutdown_round": r.get("round"), "seed": ctx.seed, "case": {k: v for k, v in r.items() if k != "tree"}})
         shut = [r for r in recs if r.get("kind") == "shutdown_save"]
         recs = [r for r in recs if r.get("kind") == "persist"]
         ctx.coverage["shutdown_during_save"] = [{k: r.get(k) for k in ("ok", "stored_jobs", "stored_completed", "what")} for r in shut]
